@@ -101,7 +101,8 @@ class ASPAtom(ASPElement):
     def __eq__(self, other):
         if not isinstance(other, ASPAtom):
             return False
-        return self.name == other.name and self.attributes == other.attributes and self.is_initial == other.is_initial and self.is_after == other.is_after and self.is_before == other.is_before
+        return self.name == other.name and self.attributes == other.attributes and self.negated == other.negated \
+               and self.is_initial == other.is_initial and self.is_after == other.is_after and self.is_before == other.is_before
 
     def __repr__(self):
         return str(self)
